@@ -109,6 +109,19 @@ def gen_unit(seed, nnames, maxdepth, pool_size):
     pn = d(_pick(pool))
     lines.append("int proto_fn(int %s, char (*q)[sizeof(%s)]);" % (pn, pn))
     use(scopes, "", False)
+    # definitions whose declarator nests function declarators (function returning pointer to function, to array of function
+    # pointers, ...): the body is compiled in the scope of the parameter list that belongs to the function's own name
+    for _ in range(d(_int(0, 2))):
+        val[0] += 1
+        v1 = val[0] % 1000 + 1
+        uses[0] += 1
+        k = uses[0]
+        p1 = d(_pick(pool))
+        p2 = d(_pick(pool + [p1, p1]))
+        shape = d(_int(0, 2))
+        decl_ = ["int (*pk%d(char (*%s)[%d]))(int %s)", "int (*(*pk%d(char (*%s)[%d]))[2])(long %s, int)", "void (*pk%d(char (*%s)[%d], int zz))(int (*%s)(void))"][shape] % (k, p1, v1, p2)
+        lines.append("%s { static int c%d = sizeof(*%s); return 0; }" % (decl_, k, p1))
+        exp[k] = v1
     lines.append("void scoped(void) {")
     scopes.append({})      # the function body is a block scope of its own
     depth = 0
